@@ -66,10 +66,21 @@ class Box:
         new_start_coord = np.subtract(new_start_coord, concat_offsets)
         new_end_coord = np.subtract(new_end_coord, concat_offsets)
 
+        # If the op was combined with a split slice read, the op sees the window of the IFM that is given by the read offset
+        # and the read shape. Height and width are transformed relative to that window (the offset must not be scaled by
+        # the stride) and moved to the window's position afterwards; the other axes are offset directly
+        window_offset_h = window_offset_w = 0
+        window_shape = ifm_shape
         if split_offset is not None:
+            transform_hw = strides is not None and skirt is not None and len(split_offset) >= 3
             for idx in range(len(split_offset)):
+                if transform_hw and idx in (len(split_offset) - 3, len(split_offset) - 2):
+                    continue
                 new_start_coord[idx] += split_offset[idx]
                 new_end_coord[idx] += split_offset[idx]
+            if transform_hw:
+                window_offset_h, window_offset_w = split_offset[-3], split_offset[-2]
+                window_shape = ifm_shape.with_hw(split_shape[-3], split_shape[-2])
 
         if npu_block_type in (NpuBlockType.ConvolutionMxN, NpuBlockType.VectorProduct, NpuBlockType.ReduceSum):
             # these types of operations do a "dot product" or sum over the entire IFM
@@ -83,10 +94,10 @@ class Box:
         if len(new_end_coord) >= 1:
             new_end_coord[-1] = min(new_end_coord[-1], ifm_shape.depth)
         if len(new_end_coord) >= 2:
-            new_end_coord[-2] = min(new_end_coord[-2], ifm_shape.width * upscaling_factor)
+            new_end_coord[-2] = min(new_end_coord[-2], window_shape.width * upscaling_factor)
         if len(new_end_coord) >= 3:
             original_end_coord = list(new_end_coord)
-            new_end_coord[-3] = min(new_end_coord[-3], ifm_shape.height * upscaling_factor)
+            new_end_coord[-3] = min(new_end_coord[-3], window_shape.height * upscaling_factor)
 
         pad_top = 0
         pad_bottom = 0
@@ -95,12 +106,8 @@ class Box:
                 stride = strides[2]
                 # if the current op was combined with a split slice read then the valid ifm range is given by the output
                 # of the split op (which is defined by the read offset and the read shape)
-                if split_offset is None:
-                    new_start_coord[-2] = max(new_start_coord[-2] * stride - skirt[1], 0)
-                    new_end_coord[-2] = min(new_end_coord[-2] * stride + skirt[3], ifm_shape.width)
-                else:
-                    new_start_coord[-2] = max(new_start_coord[-2] * stride - skirt[1], split_offset[-2])
-                    new_end_coord[-2] = min(new_end_coord[-2] * stride + skirt[3], split_offset[-2] + split_shape[-2])
+                new_start_coord[-2] = max(new_start_coord[-2] * stride - skirt[1], 0) + window_offset_w
+                new_end_coord[-2] = min(new_end_coord[-2] * stride + skirt[3], window_shape.width) + window_offset_w
 
             if len(new_start_coord) >= 3:
                 stride = strides[1]
@@ -112,22 +119,24 @@ class Box:
                 pad_top = max(0, 0 - new_start_coord[-3]) + skirt_top_remainder
                 new_start_coord[-3] = max(new_start_coord[-3], 0)
 
-                if (new_end_coord[-3] * stride + skirt[2]) > (ifm_shape.height * upscaling_factor):
+                if (new_end_coord[-3] * stride + skirt[2]) > (window_shape.height * upscaling_factor):
                     # pad_bottom is calculated based the diff between the end position of the weight kernel,
                     # after last stride and the ifm height.
-                    if upscaling_factor != 1 and original_end_coord[-3] > ifm_shape.height * upscaling_factor:
+                    if upscaling_factor != 1 and original_end_coord[-3] > window_shape.height * upscaling_factor:
                         # Special case for Transpose Convolution with VALID padding.
-                        pad_bottom = original_end_coord[-3] - (ifm_shape.height * upscaling_factor)
+                        pad_bottom = original_end_coord[-3] - (window_shape.height * upscaling_factor)
                     else:
                         k_start = new_start_coord[-3] - pad_top
                         pad_bottom = max(
-                            0, k_start + total_stride + k_dilated_height - (ifm_shape.height * upscaling_factor)
+                            0, k_start + total_stride + k_dilated_height - (window_shape.height * upscaling_factor)
                         )
 
                 # Adjust for upscaling
                 new_start_coord[-3] = max(new_start_coord[-3] // upscaling_factor, 0)
                 new_end_coord[-3] = new_end_coord[-3] * stride + skirt[2] + (skirt[2] % upscaling_factor)
-                new_end_coord[-3] = max(min(new_end_coord[-3] // upscaling_factor, ifm_shape.height), 1)
+                new_end_coord[-3] = max(min(new_end_coord[-3] // upscaling_factor, window_shape.height), 1)
+                new_start_coord[-3] += window_offset_h
+                new_end_coord[-3] += window_offset_h
 
         # Wrap the IFMs of broadcasted binary elementwise ops
         # at the limits of the non-broadcasted volumes
